@@ -1,15 +1,22 @@
-(* SearchTie.v — the order of search results with equal rank depends on the edit history
-   (finding F-SEARCHTIE of C04, DESIGN section 8 F15), shown on the model.
+(* SearchTie.v — the order of search results with equal rank does NOT depend on the edit history
+   (C04; the former finding F-SEARCHTIE, DESIGN section 8 F15, repaired in Graph::search_paths).
 
-   Graph::search_paths (graph.rs:75-97) sorts the outline paths by node_rank (descending) and key;
+   As found, Graph::search_paths sorted the outline paths by node_rank (descending) and key, and
    Database::global_search (database.rs:44-75) sorts them again, for the empty query by node_rank
    (descending) and the length of the search text.  Both sorts are stable and start from
-   Graph::paths(), which is sorted by the node-id vectors (path.rs:101).  Two paths that reach the
-   same section through two different notes with heading texts of equal length therefore stay in
-   the order of the ids of those notes' sections - the order in which the two notes were last
-   built: by key in a fresh import, by time of the update in a running server. *)
+   Graph::paths(), which is sorted by the node-id vectors (path.rs:101): two paths that reach the
+   same section through two different notes with heading texts of equal length stayed in the order
+   of the ids of those notes' sections - the order in which the two notes were last built (by key in
+   a fresh import, by time of the update in a running server).
+   Since the repair the comparator of search_paths (graph.rs:87-96) goes on with the search text, the
+   line and the heading texts of the chain: it is a total order on what an entry SAYS
+   (Determinism2.sv_le_antisym), so the list handed to global_search - and with it every answer of
+   global_search - read without node ids is a function of the multiset of entry contents
+   (Determinism2.search_paths_content, global_search_content; combined here), and the witness of
+   the finding answers alike after both histories. *)
 From Coq Require Import ZArith.
-From IweV Require Import Str Text Ast RelPath Arena Project Library Index Paths.
+From Coq Require Import List Permutation.
+From IweV Require Import Str Text Ast RelPath Arena Project Library Index Paths PathsFacts Determinism2.
 Local Open Scope string_scope.
 Local Open Scope list_scope.
 
@@ -35,8 +42,74 @@ Definition tie_edited : res gstate :=
   do s <- update_state_v true s "f" None (snd tie_f);
   update_state_v true s "b" None (snd tie_b).
 
-(* same texts, same keys, same ranks - another order *)
-Theorem search_tie_refuted :
-  search_view tie_fresh  = Ok [(2, "z", "bb t"); (2, "z", "aa t"); (0, "b", "bb"); (0, "f", "aa")] /\
+(* same texts, same keys, same ranks - the same order (as found: `bb t` first after the fresh start,
+   `aa t` first in the edited server) *)
+Theorem search_tie_repaired :
+  search_view tie_fresh  = Ok [(2, "z", "aa t"); (2, "z", "bb t"); (0, "b", "bb"); (0, "f", "aa")] /\
   search_view tie_edited = Ok [(2, "z", "aa t"); (2, "z", "bb t"); (0, "b", "bb"); (0, "f", "aa")].
 Proof. split; vm_compute; reflexivity. Qed.
+
+(* the ids do differ: the arenas of the two servers are not the same *)
+Example search_tie_ids_differ :
+  (do s <- tie_fresh; do l <- search_paths true s; Ok (map sp_ids (firstn 2 l))) <>
+  (do s <- tie_edited; do l <- search_paths true s; Ok (map sp_ids (firstn 2 l))).
+Proof. vm_compute. discriminate. Qed.
+
+(* two paths with the same rank, key, search text and line that differ in the chain only (`a b • c`
+   through f, `a • b • c` through g and y): the chain decides, alike after both histories *)
+Definition chain_z : string * option string * list dblock := ("z", None, [DHeader (0, 1) 1 [Str "c"]]).
+Definition chain_y : string * option string * list dblock :=
+  ("y", None, [DHeader (0, 1) 1 [Str "b"]; DPara (2, 3) [Link "z" "" WikiLink [Str "z"]]]).
+Definition chain_g : string * option string * list dblock :=
+  ("g", None, [DHeader (0, 1) 1 [Str "a"]; DPara (2, 3) [Link "y" "" WikiLink [Str "y"]]]).
+Definition chain_f : string * option string * list dblock :=
+  ("f", None, [DHeader (0, 1) 1 [Str "a b"]; DPara (2, 3) [Link "z" "" WikiLink [Str "z"]]]).
+
+Definition symbol_view (s : res gstate) : res (list string) :=
+  do gs <- s;
+  do sps <- search_paths true gs;
+  symbol_names (gr_arena (gs_graph gs)) (global_search true (map (fun p => (p, 0%Z)) sps)).
+
+Definition chain_fresh : res gstate := import_state_v true [chain_f; chain_g; chain_y; chain_z].
+Definition chain_edited : res gstate :=
+  do s <- import_state_v true [chain_y; chain_z];
+  do s <- update_state_v true s "g" None (snd chain_g);
+  do s <- update_state_v true s "f" None (snd chain_f);
+  update_state_v true s "g" None (snd chain_g).
+
+Theorem search_chain_tie :
+  exists names, symbol_view chain_fresh = Ok names /\ symbol_view chain_edited = Ok names /\
+    firstn 2 names = ["a • b • c"; "a b • c"].
+Proof. eexists. split; [vm_compute; reflexivity|]. split; vm_compute; reflexivity. Qed.
+
+(* C04_search_content.  Two states - two histories, two processes - whose outline paths make search
+   entries with the same contents (the same multiset of rank, key, search text, line and chain of
+   heading texts): Graph::search_paths returns in both, and for every query Database::global_search
+   answers the same list, position by position, in everything an entry shows (rank, key, search text,
+   line, root flag, texts of the chain = the symbol's name, kind and location).  [score]: the fuzzy score
+   of a search text for the query (oracle, a function of the text). *)
+Theorem search_content qe (score : string -> Z) s s' ps ps' l l' :
+  sp_entries s ps = Ok l -> sp_entries s' ps' = Ok l' ->
+  Permutation (map sp_view l) (map sp_view l') ->
+  exists r r', search_paths_of s ps = Ok r /\ search_paths_of s' ps' = Ok r' /\
+    map (sp_obs (gr_arena (gs_graph s))) r = map (sp_obs (gr_arena (gs_graph s'))) r' /\
+    map (sp_obs (gr_arena (gs_graph s))) (global_search qe (map (fun p => (p, score (sp_text p))) r)) =
+    map (sp_obs (gr_arena (gs_graph s'))) (global_search qe (map (fun p => (p, score (sp_text p))) r')).
+Proof.
+  intros E E' P. destruct (search_paths_content s s' ps ps' l l' E E' P) as (r & r' & H & H' & O).
+  exists r, r'. repeat split; auto. now apply global_search_content.
+Qed.
+
+(* the premise holds of the witness (the two entry lists are permutations of each other's contents, not equal) *)
+Example search_content_applies :
+  exists s s' ps ps' l l',
+    tie_fresh = Ok s /\ tie_edited = Ok s' /\ graph_to_paths true s = Ok ps /\ graph_to_paths true s' = Ok ps' /\
+    sp_entries s ps = Ok l /\ sp_entries s' ps' = Ok l' /\
+    Permutation (map sp_view l) (map sp_view l') /\ map sp_view l <> map sp_view l'.
+Proof.
+  do 6 eexists. split; [vm_compute; reflexivity|]. split; [vm_compute; reflexivity|].
+  split; [vm_compute; reflexivity|]. split; [vm_compute; reflexivity|].
+  split; [vm_compute; reflexivity|]. split; [vm_compute; reflexivity|].
+  split; [|vm_compute; discriminate]. vm_compute.
+  match goal with |- Permutation [?a; ?b; ?c; ?d] _ => exact (Permutation_app_comm [a; b] [c; d]) end.
+Qed.
